@@ -912,8 +912,12 @@ pub fn run_scenario_sec(sc: &Sc7, sec: Option<(String, std::path::PathBuf)>, dom
     None => {
       let missing = w.missing_matches(&initial);
       let cross = missing.iter().any(|m| m["writer_part"] != m["reader_part"]);
+      // the pattern of the second open finding (known_findings.json): secured participants, loss injected during
+      // discovery, and of the missing pairs across participants NEITHER side has reported anything after 120 s: the
+      // participants have not authenticated each other (the stored handshake message is dropped after ten re-sends)
+      let never_met = w.sec.is_some() && sc.loss_disc_ppm > 0 && cross && missing.iter().filter(|m| m["writer_part"] != m["reader_part"]).all(|m| m["reader_reported"] == json!(false) && m["writer_reported"] == json!(false));
       violate!(
-        format!("C07/match:compatible-pair-not-matched-within-bound:{}", if cross { "across-participants" } else { "same-participant" }),
+        format!("C07/match:compatible-pair-not-matched-within-bound:{}{}", if cross { "across-participants" } else { "same-participant" }, if never_met { ":neither-side-reports-anything:secured-participants-under-injected-discovery-loss" } else { "" }),
         json!({"bound_s": t_match_first, "missing": missing, "loss_during_discovery_ppm": sc.loss_disc_ppm})
       );
     }
